@@ -148,14 +148,28 @@ func (e *evidence) write(verifDir string) error {
 var commonAssumptions = []string{
 	"amd64, 64-bit int, Go 1.23.5 standard library as linked into the engine and into /repo's build",
 	"reflect is a model over go/types (gosym/interp/reflect.go), validated by native replay of sampled paths",
-	"fmt formatting is a model (wording not claimed); sync.Pool reuses the most recently Put object; sync.Mutex/RWMutex are single-thread state machines",
+	"fmt formatting is a model (wording not claimed); sync.Pool reuses the most recently Put object; sync.Mutex/RWMutex are state machines (blocking only in C11's schedule exploration)",
 	"goroutines run as deterministic coroutines (exact for jet's single-producer lexer)",
 	"strings have a concrete length per path (lengths are enumerated up to the harness bound), bytes are symbolic",
-	"bounds (string lengths, collection sizes, template skeleton lists) are those stated in each harness's doc comment and DESIGN.md §6; inputs beyond them are outside the claim",
+	"bounds (string lengths, collection sizes, template skeleton lists) are those stated in each harness's doc comment and DESIGN.md §5; inputs beyond them are outside the claim",
 }
 
 func assumptionsFor(id string) []string {
-	return append([]string{}, commonAssumptions...)
+	a := append([]string{}, commonAssumptions...)
+	switch id {
+	case "C11":
+		a = append(a,
+			"C11 schedules: 2 goroutines, one operation each; the second operation starts at any synchronisation or blocking point of the first (both orders); tier quick: no further preemption, thorough: one preemptive switch at any synchronisation operation; blocked goroutines yield FIFO",
+			"C11 race detection: vector-clock happens-before over every cell the interpreter touches, with the edges of the Go memory model (go, unlock->lock, channel send->receive, Pool.Put->Get, Once, WaitGroup, atomics, sync.Map); channel operations are not preemption points; sync.Pool reuse is LIFO",
+		)
+	case "C19":
+		a = append(a,
+			"C19 file-system loaders: os.Stat/Open/ReadFile/File.Read and embed.FS.Open are answered from the real directory trees /repo/testData and /repo/loaders/embedfs/testData (concrete inputs of the check; no symbolic links; only 'does not exist' errors); the path spelling is symbolic",
+		)
+	case "C14":
+		a = append(a, "C14 json/writeJson: operands are handed to the real encoding/json by a summary (symbolic operands concretised)")
+	}
+	return a
 }
 
 var _ = fmt.Sprint
